@@ -162,6 +162,33 @@ class Run:
             json.dump(rec, f, indent=1)
         return path
 
+    def _obligation_list(self, obs, limit=2500):
+        """every obligation of the run with status, back end and solver time; a run with more than `limit` obligations
+        lists them grouped by subject (the id up to its first "]" or second "/"), with the per-status / per-back-end
+        counts of the group, and writes the full flat list next to the evidence file as evidence_detail/<id>.tsv"""
+        if len(obs) <= limit:
+            return [o.as_dict() for o in obs]
+        groups = {}
+        for o in obs:
+            i = o.id.find("]")
+            key = o.id[:i + 1] if i >= 0 else "/".join(o.id.split("/")[:2])
+            g = groups.setdefault(key, {"subject": key, "n": 0, "status": {}, "backend": {}, "class": {}, "seconds": 0.0,
+                                        "first": o.id[len(key):], "last": ""})
+            g["n"] += 1
+            g["status"][o.status] = g["status"].get(o.status, 0) + 1
+            g["backend"][o.backend] = g["backend"].get(o.backend, 0) + 1
+            g["class"][o.klass] = g["class"].get(o.klass, 0) + 1
+            g["seconds"] = round(g["seconds"] + o.seconds, 4)
+            g["last"] = o.id[len(key):]
+        os.makedirs(os.path.join(OUT, "evidence_detail"), exist_ok=True)
+        with open(os.path.join(OUT, "evidence_detail", f"{self.prop}.tsv"), "w") as f:
+            f.write("id\tstatus\tbackend\tclass\tseconds\n")
+            for o in obs:
+                f.write(f"{o.id}\t{o.status}\t{o.backend}\t{o.klass}\t{o.seconds:.4f}\n")
+        return [{"grouped": True, "groups": len(groups), "obligations": len(obs),
+                 "full_list": f"evidence_detail/{self.prop}.tsv (rewritten by this run; the ids are also the ledger ledger/{self.prop}.json)"}] \
+            + list(groups.values())
+
     def _native_replay(self, ob):
         """Run the obligation's native replay (if any). Returns (reproduced, output, script, args)."""
         rp = ob.replay
@@ -260,7 +287,7 @@ class Run:
                                for o in bounded] + self.bounded,
             "extraction_drops": self.extraction_drops,
             "samples": samples + self.samples[:3],
-            "obligation_list": [o.as_dict() for o in obs],
+            "obligation_list": self._obligation_list(obs),
             "notes": self.notes,
             # generic counters (also accepted by the schema)
             "evaluations": max(1, len(obs)),
@@ -275,6 +302,9 @@ class Run:
         os.makedirs(os.path.join(OUT, "evidence"), exist_ok=True)
         with open(os.path.join(OUT, "evidence", f"{self.prop}.json"), "w") as f:
             json.dump(ev, f, indent=1)
+        if os.path.getsize(os.path.join(OUT, "evidence", f"{self.prop}.json")) > 3_000_000:
+            print(f"CHECKER-ERROR evidence/{self.prop}.json is larger than 3 MB (readers truncate at 5 MB)")
+            return 3
         for ln in lines:
             print(ln)
         print(f"[{self.prop}] obligations={len(exact)} discharged={n_disc} known-findings={len(known)} "
